@@ -179,6 +179,12 @@ Definition probe_ok (exact pyth : bool) (f : vfield Q) (g : vgrid Q) (oarrs : li
 
 Definition is_txt (rep : string) : bool := String.eqb rep "txt".
 
+(* legacy reader, scale regime: on a single-point axis the 1 nm default cell is below the float
+   resolution of a coordinate of magnitude >= 1e8, the float code sees a zero edge and rejects;
+   the rational model cannot see that, so the rejection is admissible there (the oracle reports it) *)
+Definition far_single (coords : list (list Q)) : bool :=
+  existsb (fun l => match l with [x] => Qle_bool 100000000 (Qabs x) | _ => false end) coords.
+
 Definition check_C16 (c : c16_case) : bool :=
   match c with
   | CGrid exact pyth p1 p2 n_ nv vd vals valid obs probes =>
@@ -210,5 +216,9 @@ Definition check_C16 (c : c16_case) : bool :=
       res_rel (fld_rel true) (q_from_vtk (to_grid g) (option_map (map (mk_sub m0)) side)) obs
   | CLegacy exact coords vec rows side obs =>
       let m0 := mkMesh (mkRegion [] [] (default_dims 3) (repeat "m"%string 3) (1 # 1000000000000)) [] "" [] in
-      res_rel (fld_rel exact) (q_from_legacy (mkLegacy coords vec rows) (option_map (map (mk_sub m0)) side)) obs
+      match obs with
+      | None => if negb exact && far_single coords then true
+                else res_rel (fld_rel exact) (q_from_legacy (mkLegacy coords vec rows) (option_map (map (mk_sub m0)) side)) obs
+      | _ => res_rel (fld_rel exact) (q_from_legacy (mkLegacy coords vec rows) (option_map (map (mk_sub m0)) side)) obs
+      end
   end.
